@@ -21,7 +21,8 @@ from simfile.dir import DuplicateSimfileError, SimfileDirectory, SimfilePack  # 
 
 LEVEL = "model_checking"
 
-NAMES = ["a.sm", "b.SM", "c.Ssc", "d.ssc", ".sm", "x.sm.old", "y.ssca", "sm", "bn.png", "song.ogg", "e.ßc", "f.ſm", "data_sm", "x-ssc"]
+# "song.sm" / "Song.SSC": simfiles named like the directory they are in (the enumerated song directory is called "song")
+NAMES = ["a.sm", "b.SM", "c.Ssc", "d.ssc", ".sm", "x.sm.old", "y.ssca", "sm", "bn.png", "song.ogg", "e.ßc", "f.ſm", "data_sm", "x-ssc", "song.sm", "Song.SSC"]
 JP = "日本語タイトル"
 
 
@@ -429,6 +430,51 @@ def explore_shard(acc, shard):
     kind = shard[0]
     world = World()
     try:
+        if kind == "bigdir":
+            # a directory of hundreds of entries: the simfile is found wherever the listing puts it
+            _, n_other = shard
+            layer = "big directories"
+            others = [f"f{i:04d}.txt" for i in range(n_other)] + ["z.sm.bak", "notes.ssc~"]
+            case = None
+            for simfiles in (["song.sm"], ["m.ssc"], ["a.sm", "n.SSC"]):
+                names = others + simfiles
+                tree = {n: (content_for(n) if kind_of(n) else b"x") for n in names}
+                paths = world.make({"song": tree})
+                spaths = (paths[0] + "/song", os.path.join(paths[1], "song"))
+                order_count = len(names)
+                srt = sorted(names)
+                # the listing orders that put a simfile first, last, and just behind 127 / 128 / 129 / 255 / 256 other entries
+                wanted_positions = {0, 1, 127, 128, 129, 255, 256, len(names) - 1}
+                orders = set()
+                for sfn in simfiles:
+                    i = srt.index(sfn)
+                    for pos in wanted_positions:
+                        if pos < len(names):
+                            orders.add((i - pos) % order_count)
+                for order in sorted(orders):
+                    case = {"kind": "songdir", "names": names, "order": order, "ignore_duplicate": False, "slash": False}
+                    core.guard(acc, {"kind": "bigdir", "entries": len(names), "simfiles": simfiles, "order": order})
+                    fails = check_songdir(world, names, order, False, False, spaths)
+                    # the same directory inside a pack
+                    ppaths = world.make({"Pack": {"song": tree, "other": {"o.sm": content_for("o.sm")}}})
+                    pf = []
+                    for fsname, fsobj, base in (("mem", world.mem, ppaths[0]), ("nat", world.nat, ppaths[1])):
+                        fsobj.order = order
+                        got = outcome(lambda: sorted(norm(fsname, p_) for p_ in SimfilePack(join(fsname, base, "Pack"), filesystem=fsobj).simfile_dir_paths))
+                        want = ("ok", sorted(norm(fsname, join(fsname, base, "Pack", d)) for d in ("song", "other")))
+                        if got != want:
+                            pf.append({"clause": "a pack does not list exactly its immediate sub-directories that directly contain a simfile", "expected": want, "observed": got, "fs": fsname})
+                    world.drop(*ppaths)
+                    acc.count("states")
+                    acc.count("transitions")
+                    acc.count("evaluations", 4)
+                    acc.count("nontrivial")
+                    acc.outcome("directory with hundreds of entries")
+                    for f in fails + pf:
+                        acc.violation(f["clause"], dict(case, names=f"{n_other} text files + {simfiles}"), f["expected"], f["observed"], signature=(f["clause"], "bigdir"))
+                world.drop(*paths)
+            acc.sample(layer, {"entries": n_other + 3})
+            return
         if kind == "reuse":
             _, tree_name, as_pack, depth = shard
             layer = "one object used several times"
@@ -532,6 +578,8 @@ def explore(run):
     shards.append(("pack", None, 0))
     for k in CHILD_KINDS:
         shards.append(("pack", k, pmax))
+    for n_other in (130, 300) + ((1100,) if run.thorough() else ()):
+        shards.append(("bigdir", n_other))
     for t in reuse_trees():
         for as_pack in (False, True):
             shards.append(("reuse", t, as_pack, 4 if run.thorough() else 3))
@@ -541,6 +589,7 @@ def explore(run):
     acc = run.acc
     run.rule = (
         f"reuse: one SimfileDirectory / SimfilePack object opened along every history of <= {4 if run.thorough() else 3} calls over (default, strict=False, strict=True) on 3 trees (every answer compared with a fresh object's); "
+        "big directories: 130 and 300 (thorough 1100) other entries with the simfile(s) listed first, second, 128th, 129th, 130th, 256th, 257th and last, alone and inside a pack; "
         f"song directories: every subset of <= {maxn} names from {NAMES} x every listing order of the entries x ignore_duplicate x trailing slash; "
         f"packs: every multiset of <= {pmax} children from {CHILD_KINDS} x every listing order (applied to the pack and to every song directory) x ignore_duplicate x strict x trailing slash x explicit encoding (when a CP932 file is present); "
         "every tree on MemoryFS and on a native temporary directory (there also named relative to the current directory: bare, ./name, name/, ../parent/name). A state is one tree; non-trivial = at least two simfiles / two children."
@@ -551,6 +600,7 @@ def explore(run):
     ]
     core.require(acc.outcomes["duplicate simfiles, error"] > 0 and acc.outcomes["duplicate simfiles, ignored"] > 0, "no duplicates")
     core.require(acc.outcomes["directory without simfile"] > 0, "no empty directory")
+    core.require(acc.outcomes["directory with hundreds of entries"] > 0, "no big directory")
     core.require(acc.outcomes["directory / pack object opened more than once"] > 0, "no reuse history")
     core.require(acc.outcomes["stray-text file opened with strict=False"] > 0, "strict option not exercised")
     core.require(acc.outcomes["explicit encoding passed down"] > 0, "encoding option not exercised")
